@@ -15,6 +15,11 @@ TV:      the harness drives both packages with the same programs: Valid/Compact/
          programs over Token/More/Decode/InputOffset with UseNumber and DisallowUnknownFields on
          chunked readers; Encoder programs over Encode/SetIndent/SetEscapeHTML.  TLC (Trace_V1)
          validates every step against the relation.
+MC/TV:   V1.tla also models the stream API of encoding/json itself (Token / More / InputOffset as a
+         state machine over the token table and the read position).  For programs of those calls
+         over one valid text TLC requires both packages to answer exactly what the model
+         prescribes: a disagreement of encoding/json is an error of the specification (exit 2), a
+         disagreement of v1 a violation.
 """
 
 
